@@ -28,6 +28,49 @@ class Ctx(object):
         return self._irp
 
 
+class InlinedCtx(object):
+    """the same program with small static helper functions inlined into their callers (uv/inline.py)"""
+
+    def __init__(self, ctx):
+        from .inline import InlinedProgram
+        self.prog = ctx.prog
+        self.irp = InlinedProgram(ctx.irp)
+
+
+def run_with_inlining_retry(mod, ctx, chk, pid, tier, seed):
+    """rules that reason per function (ownership, revert protocol) meet helper functions a maintainer extracted: if the
+    plain run alarms or cannot classify something, the check is repeated on the program with static helpers inlined; a
+    violation stands only if it is present there too (inlining preserves behaviour, so a real violation survives it)"""
+    from .report import load_known
+    if not getattr(mod, 'RETRY_INLINED', False):
+        mod.run(ctx, chk)
+        return chk
+    known = load_known().get(pid, {})
+    broken = None
+    try:
+        mod.run(ctx, chk)
+    except AnalysisBroken as e:
+        broken = e
+    if broken is None and not any((not o.ok) and o.key not in known for o in chk.obls):
+        return chk
+    ctx2 = InlinedCtx(ctx)
+    chk2 = Check(pid, tier=tier, level=getattr(mod, 'LEVEL', 'other'), seed=seed)
+    try:
+        mod.run(ctx2, chk2)
+    except AnalysisBroken as e2:
+        if broken is not None:
+            raise broken
+        return chk
+    if any((not o.ok) and o.key not in known for o in chk2.obls) and broken is None:
+        return chk          # the violation survives inlining: report it on the code as written
+    chk2.notes.append('decided on the program with static helper functions inlined (%d call sites; helpers absorbed: %s): the '
+                      'plain per-function run %s' % (ctx2.irp.inlined_calls, ', '.join(ctx2.irp.removed) or 'none',
+                                                     ('could not classify a construct: %s' % broken) if broken is not None
+                                                     else 'reported obligations that hold once the helpers are seen in context'))
+    chk2.analysed['units'] = ctx.prog.meta['units']
+    return chk2
+
+
 def main(argv):
     sys.setrecursionlimit(20000)
     try:
@@ -69,7 +112,7 @@ def main(argv):
     ctx = Ctx()
     chk = Check(pid, tier=tier, level=getattr(mod, 'LEVEL', 'other'), seed=seed)
     try:
-        mod.run(ctx, chk)
+        chk = run_with_inlining_retry(mod, ctx, chk, pid, tier, seed)
         if replay:
             with open(replay) as f:
                 r = json.load(f)
